@@ -33,9 +33,15 @@ GrownFrames(b) == IF Len(b) < 4 THEN {} ELSE
 PaddingClaims(b) == IF Len(b) < 8 THEN {} ELSE
   { [b EXCEPT ![1] = IF (b[1] \div 32) % 2 = 1 THEN b[1] ELSE b[1] + 32, ![Len(b)] = n] : n \in {0, 1, 2, 3, 4, 5, 8, 255} }
 
+\* a short prefix whose length field claims less (or, after multiplication by 4 in 16 bits, wraps to less)
+\* than is there: decoders that trust the field for "enough octets" then read fixed offsets
+ShortLies(b) == IF Len(b) < 5 THEN {} ELSE
+  { SetLenField(Take(b, n), L) : n \in 4..Min(Len(b) - 1, 20), L \in {0, 1, 2, 3, 16384, 16385, 32768} }
+
 FirstOrder(b) ==
   Truncations(b) \cup LenLies(b) \cup LenResized(b) \cup CountChanges(b) \cup PTChanges(b)
   \cup VersionChanges(b) \cup PaddingFlip(b) \cup PaddingClaims(b) \cup ByteChanges(b, 48) \cup Extensions(b) \cup GrownFrames(b)
+  \cup ShortLies(b)
 \* a cheaper family for second-order compositions
 Light(b) == Truncations(b) \cup LenLies(b) \cup CountChanges(b) \cup PaddingFlip(b) \cup GrownFrames(b)
 =============================================================================
